@@ -10,7 +10,8 @@
   Not a theorem (see PARTIAL in the harness): "for stationary Gaussian noise of mean m and rms s the maps
   equal m and s to within sampling error" — a statistical statement, sampled by the harness.
 -/
-import Aegean.Proofs.C06Plumb
+import Aegean.Proofs.C06Grid
+import Aegean.Generated.C06
 
 namespace Aegean.Properties.C06
 open Aegean.Model.C06 Aegean.Proofs.C06
@@ -410,6 +411,102 @@ theorem compressed_file_is_returned_at_nodes (mode : Mode) (mask : Bool) (G : Ge
     have e2 : ∀ (v : Option ℝ), (v.map (· / b)).map (· * b) = v := by
       intro v; cases v <;> simp [div_mul_cancel₀ _ hb0]
     simp [filterImage, hc, hbs, FileOut.readBack, divImg, mulImg, e2]
+
+/-! ### the regenerated arithmetic of `sigma_filter` (Gen.C06, re-translated from the source on every run) is the
+    model's arithmetic — so the theorems above are theorems about it.  The proofs are written to survive harmless
+    rewrites (reordered operands, `max`/`min` argument order, an alias, Nat- or Int-typed results) and to break when a
+    bound, a half-width, a clamp or a slice changes. -/
+
+section Regenerated
+open Gen.C06
+set_option linter.unnecessarySeqFocus false
+set_option linter.unusedTactic false
+set_option linter.unreachableTactic false
+
+/-- closes goals about `max(0, ·)`, `min(·, ·)`, `// 2` and Nat/Int casts after the generated definition is unfolded -/
+macro "gen_arith" : tactic =>
+  `(tactic| first
+    | omega
+    | (split <;> omega)
+    | (split <;> split <;> omega)
+    | (push_cast; omega)
+    | (push_cast; split <;> omega)
+    | (push_cast; split <;> split <;> omega))
+
+/-- **gen_loaded_rows**: the rows a stripe loads are `[Geom.drmin, Geom.drmax)` -/
+theorem gen_loaded_rows (G : Geom) (S : Stripe) :
+    (dataRowMin S.ymin S.ymax G.bY G.R : Int) = ((G.drmin S : Nat) : Int) ∧
+    (dataRowMax S.ymin S.ymax G.bY G.R : Int) = ((G.drmax S : Nat) : Int) := by
+  constructor
+  · simp only [dataRowMin, Geom.drmin] <;> gen_arith
+  · simp only [dataRowMax, Geom.drmax] <;> gen_arith
+
+/-- **gen_box**: the slice bounds of `box(r, c)` are the bounds `boxvals` uses, with no edge row/column excluded
+    (`e = 0`; the pinned `min(shape - 1, ·)` does not satisfy this) -/
+theorem gen_box (G : Geom) (he : G.e = 0) (dn r c : Nat) :
+    (boxRMin r c G.bY G.bX dn G.C : Int) = ((r - G.bY / 2 : Nat) : Int) ∧
+    (boxRMax r c G.bY G.bX dn G.C : Int) = ((min (dn - G.e) (r + G.bY / 2) : Nat) : Int) ∧
+    (boxCMin r c G.bY G.bX dn G.C : Int) = ((c - G.bX / 2 : Nat) : Int) ∧
+    (boxCMax r c G.bY G.bX dn G.C : Int) = ((min (G.C - G.e) (c + G.bX / 2) : Nat) : Int) := by
+  refine ⟨?_, ?_, ?_, ?_⟩
+  · simp only [boxRMin] <;> gen_arith
+  · simp only [boxRMax, he] <;> gen_arith
+  · simp only [boxCMin] <;> gen_arith
+  · simp only [boxCMax, he] <;> gen_arith
+
+/-- **gen_grid_rows**: `rows = list(range(A, B, S)); rows.append(L)` has `A = r0`, `B = L = rEnd`, `S = gy`;
+    with `grid_rows_eq_nodes` the list is `[nodeR 0, …]`, the model's closed form -/
+theorem gen_grid_rows (G : Geom) (S : Stripe) (h : S.ymin ≤ S.ymax) :
+    (gridR0 S.ymin S.ymax (G.drmin S) G.gy : Int) = ((G.r0 S : Nat) : Int) ∧
+    (gridREnd S.ymin S.ymax (G.drmin S) G.gy : Int) = ((G.rEnd S : Nat) : Int) ∧
+    (gridRStep S.ymin S.ymax (G.drmin S) G.gy : Int) = ((G.gy : Nat) : Int) ∧
+    (gridRLast S.ymin S.ymax (G.drmin S) G.gy : Int) = ((G.rEnd S : Nat) : Int) := by
+  refine ⟨?_, ?_, ?_, ?_⟩
+  · simp only [gridR0, Geom.r0, Geom.drmin] <;> gen_arith
+  · simp only [gridREnd, Geom.rEnd, Geom.drmin] <;> gen_arith
+  · simp only [gridRStep] <;> gen_arith
+  · simp only [gridRLast, Geom.rEnd, Geom.drmin] <;> gen_arith
+
+theorem gen_grid_cols (G : Geom) :
+    (gridC0 G.C G.gx : Int) = 0 ∧ (gridCEnd G.C G.gx : Int) = ((G.C : Nat) : Int) ∧
+    (gridCStep G.C G.gx : Int) = ((G.gx : Nat) : Int) ∧ (gridCLast G.C G.gx : Int) = ((G.C : Nat) : Int) := by
+  refine ⟨?_, ?_, ?_, ?_⟩
+  · simp only [gridC0] <;> gen_arith
+  · simp only [gridCEnd] <;> gen_arith
+  · simp only [gridCStep] <;> gen_arith
+  · simp only [gridCLast] <;> gen_arith
+
+/-- the grids the code builds are the model's node lists -/
+theorem grid_lists_are_nodes (G : Geom) (S : Stripe) (hgy : 0 < G.gy) (hgx : 0 < G.gx) (h : S.ymin ≤ S.ymax) :
+    Py.range (G.r0 S) (G.rEnd S) G.gy ++ [G.rEnd S] = (List.range (G.nNodeR S)).map (G.nodeR S) ∧
+    Py.range 0 G.C G.gx ++ [G.C] = (List.range G.nNodeC).map G.nodeC :=
+  ⟨grid_rows_eq_nodes G S hgy (by simp only [Geom.r0, Geom.rEnd, Geom.drmin]; omega), grid_cols_eq_nodes G hgx⟩
+
+/-- **gen_subtract_rows**: the background is subtracted from *every* row of the loaded block, taken from rows
+    `[drmin, drmax)` of the full-size map: the regenerated slices are `subRows Mode.all` (and by `d2Fn_subRows` that is
+    what `d2Fn Mode.all` does).  For the pinned `data[ymin-drmin : …] -= ibkg[ymin:ymax]` this does not check. -/
+theorem gen_subtract_rows (G : Geom) (S : Stripe) :
+    (subTLo S.ymin S.ymax (G.drmin S) (G.drmax S) (G.dn S) G.R : Int) = (((subRows Mode.all G S).1 : Nat) : Int) ∧
+    (subTHi S.ymin S.ymax (G.drmin S) (G.drmax S) (G.dn S) G.R : Int) = (((subRows Mode.all G S).2 : Nat) : Int) ∧
+    (subSLo S.ymin S.ymax (G.drmin S) (G.drmax S) (G.dn S) G.R : Int) = ((G.drmin S : Nat) : Int) ∧
+    (subSHi S.ymin S.ymax (G.drmin S) (G.drmax S) (G.dn S) G.R : Int) = ((G.drmax S : Nat) : Int) := by
+  refine ⟨?_, ?_, ?_, ?_⟩
+  · simp only [subTLo, subRows] <;> gen_arith
+  · simp only [subTHi, subRows] <;> gen_arith
+  · simp only [subSLo] <;> gen_arith
+  · simp only [subSHi] <;> gen_arith
+
+theorem subtract_rows_semantics (mode : Mode) (G : Geom) (S : Stripe) (img B : Img ℝ) (r c : Nat) (hr : r < G.dn S) :
+    d2Fn mode G S img B r c =
+      if (subRows mode G S).1 ≤ r ∧ r < (subRows mode G S).2 then osub (cut G S img r c) (B (G.drmin S + r) c)
+      else cut G S img r c := d2Fn_subRows mode G S img B r c hr
+
+/-- non-vacuity: on a concrete geometry the regenerated bounds evaluate to the expected numbers -/
+example : (boxRMin 10 3 8 6 12 20 : Int) = 6 ∧ (boxRMax 10 3 8 6 12 20 : Int) = 12 ∧
+    (boxCMin 10 3 8 6 12 20 : Int) = 0 ∧ (boxCMax 10 3 8 6 12 20 : Int) = 6 ∧
+    (dataRowMin 2 9 8 10 : Int) = 0 ∧ (dataRowMax 2 9 8 10 : Int) = 10 := by decide
+
+end Regenerated
 
 /-! ### evaluated witnesses (tests, not theorems): the toy image is 4 rows × 2 columns, grid 2, box 4,
     two stripes `[0,2)`, `[2,4)`; a constant image 0 and the same image + 1.  Run at `Float`. -/
